@@ -5,6 +5,7 @@ An abstract batch description (plain JSON) is written to disk by harness/gen_agi
 file layouts of the fixtures, imported by the real code, and sent to the Lean driver, which
 evaluates the mechanism model and the specification.  Pixel values travel as float64 bit tokens
 (placement) or exact rationals (counts-per-second division, CSV text)."""
+import json
 import logging
 import math
 import pathlib
@@ -251,7 +252,11 @@ class C02(Prop):
             listing.append({"name": rng.choice(["notes.txt", "5.d.bak", "77.dat", "readme"]), "dir": rng.random() < 0.5})
         if rng.random() < 0.12:  # a plain file that looks like a data directory
             nm = rng.choice(["88888.d", "0.D", "tmp55555.d"])
-            if all(e["name"] != nm for e in listing) and all(digits(nm) != digits(f["name"]) for f in files):
+            # never a name that a log or the method file refers to (a logged-but-missing data file of that name would
+            # then "exist" as a plain file: a batch no instrument writes, outside the property's quantifier)
+            referenced = json.dumps([xml_entries, csv_rows, acq])
+            if all(e["name"] != nm for e in listing) and all(digits(nm) != digits(f["name"]) for f in files) \
+                    and nm not in referenced:
                 listing.append({"name": nm, "dir": False})
         rng.shuffle(listing)
         nm_methods = pick("methods", None) or rng.choice([["batch_xml", "batch_csv"], ["batch_xml", "batch_csv"], ["batch_csv", "batch_xml"],
@@ -460,6 +465,12 @@ class C02(Prop):
     def evaluate(self, case, ctx):
         from pewlib.io import agilent
 
+        # a plain FILE carrying the name of a data file that a log / the method file refers to is not a batch any
+        # instrument writes (outside the quantifier); the model does not describe it (a shrunk or hand-made case may)
+        referenced = json.dumps([case.get("xml"), case.get("csv"), case.get("acq")])
+        if any((not e["dir"]) and e["name"].lower().endswith(".d") and e["name"] in referenced for e in case["listing"]):
+            return outcome({"excluded": True}, {"excluded": True}, {"excluded": True}, undetermined=True, hyp=False,
+                           features=["excluded:plain-file-named-like-a-logged-data-file"])
         root = ctx.tmpdir()
         b = self.write_batch(case, root)
         order = [e["name"] for e in case["listing"]]
